@@ -1013,3 +1013,40 @@ def np_arange(eng, st, args, kwargs):
     if not is_int_like(n):
         raise OutOfSubset('np.arange of a non-integer')
     yield new_ref(st, ArrV((maxv(n, 0),), lambda i: i, 'int')), st
+
+
+_RND = [None]
+
+
+def RND():
+    if _RND[0] is None:
+        _RND[0] = z3.Function('ROUND', z3.RealSort(), z3.IntSort(), z3.RealSort())
+    return _RND[0]
+
+
+@lib('numpy.round', 'numpy.around')
+def np_round(eng, st, args, kwargs):
+    """np.round(a, decimals=q): elementwise ROUND(x, q), a function of the value and the number of decimals (nothing else is assumed)"""
+    q = kwargs.get('decimals', args[1] if len(args) > 1 else 0)
+
+    def rnd(x, q=q):
+        xc, qc = concrete(x), concrete(q)
+        if xc is not None and qc is not None:
+            return round(float(xc), int(qc))
+        return RND()(to_z3(to_real(to_num(x))), to_z3(q))
+    yield map1(eng, st, args[0], rnd, 'real'), st
+
+
+@lib('numpy.ravel')
+def np_ravel(eng, st, args, kwargs):
+    a = arr_of(eng, st, args[0])
+    if a is None or kwargs or len(args) != 1:
+        raise OutOfSubset('np.ravel of a scalar / with order')
+    if a.ndim == 1:
+        yield new_ref(st, ArrV(a.shape, a.at, a.dtype)), st
+        return
+    if a.ndim == 2 and isinstance(a.shape[1], int):
+        w = a.shape[1]
+        yield new_ref(st, ArrV((mul(a.shape[0], w),), lambda t, a=a, w=w: a.at(floordiv(t, w), mod(t, w)), a.dtype)), st
+        return
+    raise OutOfSubset('np.ravel of this shape')
